@@ -15,6 +15,7 @@ class PatchList:
         self.patches: OrderedDict[str, Patch] = OrderedDict()
         self.default: Dict[str, str] = {}
         self.merged: List[List[str]] = []  # data for the mergePatchPairs entry
+        self.modified: Set[str] = set()  # names of patches changed by modify()
 
     def add(self, vertices: List[Vertex], operation: Operation) -> None:
         """Create Patches from operation's patch_names"""
@@ -44,20 +45,28 @@ class PatchList:
         if settings is not None:
             patch.settings = settings
 
+        self.modified.add(name)
+
     def merge(self, master: str, slave: str) -> None:
         """Adds an entry in mergePatchPairs list in blockMeshDict"""
         self.merged.append([master, slave])
 
     def clear(self) -> None:
-        """Removes collected patches but leaves settings intact"""
-        self.patches.clear()
+        """Removes collected sides but leaves patches (with types and settings from modify()),
+        default patch and merged pairs intact"""
+        for patch in self.patches.values():
+            patch.sides.clear()
 
     @property
     def description(self) -> str:
         """Outputs a 'boundary' and 'faces' dict to be inserted directly into blockMeshDict"""
         out = "boundary\n(\n"
 
-        for _, patch in self.patches.items():
+        for name, patch in self.patches.items():
+            if len(patch.sides) == 0 and name not in self.modified:
+                # a leftover from an assembly before clear(); nothing uses this name anymore
+                continue
+
             out += patch.description
 
         out += ");\n\n"
